@@ -4,7 +4,7 @@
    Definitions only.  See notes/DEC.md.
 
    A condition of the Go source is a [dexp] over variables named by a normalised access path
-   ("Last.status", "History.len", "revsorted(History)[0].status", "arg2.len", …), each with
+   ("Last.status", "len(History)", "revsorted(History)[0].status", "len(arg2)", …), each with
    the type the translator read off the source, the option flags of the action ([DFlag]),
    the error answers of calls ([DErr] "the error of this call is non-nil", [DErrIs] "… and
    it is this error"), nil tests of pointers / slices / maps ([DNil]), and the constants of
@@ -176,11 +176,16 @@ Inductive site :=
 | Modelled (label : string) (c : menv -> bool)
 | Outside (label : string) (reason : string).
 
-(* the obligation for one site: for ALL environments the Go condition evaluates, to the
-   model's condition *)
+(* the only restriction on environments: a variable that the translator named "len(…)" is
+   the value of Go's builtin len, which is never negative *)
+Definition is_len (x : string) : bool := prefix "len(" x.
+Definition env_wf (m : menv) : Prop := forall x, is_len x = true -> (0 <= m_n m x)%Z.
+
+(* the obligation for one site: for ALL (well-formed) environments the Go condition
+   evaluates, to the model's condition *)
 Definition site_ok (s : site) (g : dexp) : Prop :=
   match s with
-  | Modelled _ c => forall m : menv, deval m g = Some (VB (c m))
+  | Modelled _ c => forall m : menv, env_wf m -> deval m g = Some (VB (c m))
   | Outside _ _ => True
   end.
 
